@@ -267,7 +267,7 @@ QRun *g_q = nullptr;
 
 void execute_queue(const Plan &plan, Verdict &v, Mode mode) {
     WorldCfg cfg;
-    cfg.queue = (int) clampl(plan.k("queue", 4), 1, 12);
+    cfg.queue = (int) clampl(plan.k("queue", 4), 1, 32767);
     cfg.heap = (int) clampl(plan.k("heap", 64), 2, 700);
     cfg.inbuf = (int) clampl(plan.k("inbuf", 256), 48, 400);
     cfg.wr_mode = (int) (plan.k("wr_mode", 0) & 3);
@@ -371,6 +371,7 @@ void execute_queue(const Plan &plan, Verdict &v, Mode mode) {
                 bool ring_wrap = w.ctx->error_queue.wr < w.ctx->error_queue.rd || (w.ctx->error_queue.count && w.ctx->error_queue.wr == w.ctx->error_queue.rd);
                 if (ring_wrap) COUNT("probe_ring_wrapped");
                 bool was_full = (int) run.q.size() >= run.cap;
+                if (was_full && run.cap >= 16384) COUNT("probe_overflow_on_huge_queue");
                 if (was_full && !run.q.empty() && run.q.back().has_ptr && op.has_s) COUNT("probe_overflow_text_in_victim_and_newcomer");
                 if (allocfail && op.has_s && SIM_HAS_INFO && !SIM_HEAP) {
                     g_alloc.fail_countdown = 0;
@@ -387,6 +388,30 @@ void execute_queue(const Plan &plan, Verdict &v, Mode mode) {
                 run.expect_echo = false;
                 run.check_count("after push");
                 COUNT("fw_push");
+            } else if (op.kind == "bulk_push" || op.kind == "bulk_pop") {
+                // many text-less pushes / pops in one op (used to rotate very large rings); every one is checked against the model
+                long nrep = clampl(op.arg(0), 0, 70000);
+                for (long k = 0; k < nrep && !v.violated; k++) {
+                    if (op.kind == "bulk_push") {
+                        int code = (int) (1 + (k % 30000));
+                        bool was_full2 = (int) run.q.size() >= run.cap;
+                        fw_push_active = true;
+                        SCPI_ErrorPush(w.ctx, (int16_t) code);
+                        fw_push_active = false;
+                        run.model_push(code, false, "", false);
+                        run.expect_echo = false;
+                        if (was_full2) COUNT("probe_overflow_on_huge_queue");
+                    } else {
+                        Entry m = run.model_pop();
+                        scpi_error_t e;
+                        SCPI_ErrorPop(w.ctx, &e);
+                        if (e.error_code != m.code) v.fail("fifo-order", fmt("via=bulk have=%d want=%d", e.error_code, m.code), fmt("bulk pop %ld returned %d, reference FIFO says %d", k, e.error_code, m.code));
+#if SIM_HAS_INFO
+                        w.free_info(e.device_dependent_info);
+#endif
+                    }
+                }
+                run.check_count("after bulk op");
             } else if (op.kind == "pop") {
                 Entry m = run.model_pop();
                 int code;
@@ -437,7 +462,7 @@ void execute_queue(const Plan &plan, Verdict &v, Mode mode) {
         // final: drain through the API and compare with the model (every stored text released exactly once)
         if (!v.violated && plan.k("drain", 1)) {
             int guard = 0;
-            while (!run.q.empty() && !v.violated && guard++ < 64) {
+            while (!run.q.empty() && !v.violated && guard++ < 40000) {
                 Entry m = run.model_pop();
                 int code;
                 std::string text;
@@ -517,6 +542,22 @@ std::string gen_queue_msg(Rng &r, long &uniq) {
 void generate_queue(Rng &r, const GenOpts &g, Plan &p, Mode mode) {
     bool thorough = g.tier == "thorough";
     bool heap = g.config == "heap";
+    if (mode == M_C10 && r.chance(1, 400)) {
+        // very large queue (capacity is an int16_t): rotate the ring, then overflow
+        static const long caps[] = {16384, 16385, 20000, 32766, 32767};
+        long cap = caps[r.below(5)];
+        p.knob["queue"] = cap;
+        p.knob["drain"] = r.chance(1, 2);
+        long rot = r.chance(1, 2) ? r.range(1, 40) : r.range(1, cap - 1);
+        p.ops.push_back(Op("bulk_push", {cap}));
+        p.ops.push_back(Op("bulk_pop", {rot}));
+        p.ops.push_back(Op("bulk_push", {rot}));
+        long extra = r.range(1, 3);
+        for (long i = 0; i < extra; i++) p.ops.push_back(Op("push", {-(long) r.range(100, 300), 0, 0}, "t" + std::to_string(i)));
+        p.ops.push_back(Op("bulk_pop", {r.range(1, 5)}));
+        p.ops.push_back(Op("count"));
+        return;
+    }
     p.knob["queue"] = r.chance(1, 2) ? r.range(1, 3) : r.range(1, 6);
     if (heap) {
         p.knob["heap"] = mode == M_C18 ? (r.chance(1, 2) ? 600 : r.range(16, 300)) : (r.chance(1, 8) ? 600 : (r.chance(1, 2) ? r.range(2, 12) : r.range(2, 64)));
@@ -618,7 +659,7 @@ const Property C10 = {
     gen_c10,
     exec_c10,
     {"probe_ring_wrapped", "probe_overflow_text_in_victim_and_newcomer", "probe_clear_with_texts_pending", "probe_alloc_failed_at_capacity",
-     "probe_pop_to_empty", "probe_pop_on_empty", "fault_queue_overflow", "fault_alloc_failed_fw_push", "fault_alloc_failed_parser_push"},
+     "probe_pop_to_empty", "probe_pop_on_empty", "fault_queue_overflow", "fault_alloc_failed_fw_push", "fault_alloc_failed_parser_push", "probe_overflow_on_huge_queue"},
     "seeded histories of 1..1500 (thorough: ..10000) operations {SCPI_ErrorPush[Ex] with unique texts / explicit or automatic length, SCPI_ErrorPop + "
     "release, SCPI_ErrorClear, SCPI_ErrorCount, controller messages with SYST:ERR?, SYST:ERR:COUN?, *CLS and undefined headers} on queues of capacity "
     "1..6, allocation failures injected through the wrapped strndup per push; reference FIFO + allocation ledger compared after every operation. "
